@@ -5,11 +5,29 @@ import binascii, re
 from . import core, stdio, wsgen
 
 
+def corpus_workspaces():
+    """fixed workspaces that run before the generated ones: minimized past failures of the wire laws"""
+    from .pybuild import PyFile
+    out = []
+    # (fixed 8911aac) an overriding fixture requesting its own name: outgoing calls listed the fixture itself
+    ws = wsgen.WS()
+    cf = PyFile(); cf.fixture("foo", params=("foo",), ret="int"); cf.fixture("baz"); ws.add("conftest.py", cf)
+    tf = PyFile(); tf.test("test_a", params=("foo", "baz")); ws.add("test_a.py", tf)
+    out.append(ws)
+    ws = wsgen.WS()
+    cf = PyFile(); cf.fixture("foo", ret="str"); ws.add("conftest.py", cf)
+    c2 = PyFile(); c2.fixture("foo", params=("foo",), ret="int"); ws.add("a/conftest.py", c2)
+    tf = PyFile(); tf.fixture("foo", params=("foo", )); tf.test("test_a", params=("foo",)); ws.add("a/test_a.py", tf)
+    out.append(ws)
+    return out
+
+
 def build_sessions(rng, n, with_returns=True):
     """-> list of (StdioCase, info) ; info = {path: PyFile}"""
     out = []
-    for i in range(n):
-        ws = wsgen.gen_workspace(rng)
+    fixed = corpus_workspaces()
+    for i in range(n + len(fixed)):
+        ws = fixed[i] if i < len(fixed) else wsgen.gen_workspace(rng)
         ws.files = {p: pf for p, pf in ws.files.items() if "site-packages" not in p and not p.startswith("plug/")}
         files = {p: pf.text() for p, pf in ws.files.items()}
         sc = stdio.StdioCase("w%d" % i, files)
